@@ -41,6 +41,8 @@ NotationOk(r) ==
   /\ Canonical(r.s)     => r.ok /\ r.printed = PrintInterval(ParseInterval(r.s).iv)
   /\ CanonicalPost(r.s) => r.ok /\ r.printed = PrintInterval(ParseIntervalPostfix(r.s).iv)
   /\ r.ok => ParseInterval(r.printed).ok /\ ValidInterval(ParseInterval(r.printed).iv)   \* never prints something unreadable
+  \* a number written with leading zeros is the same (decimal) number, if it is accepted at all
+  /\ (r.ok /\ ParseInterval(r.s).ok /\ ValidInterval(ParseInterval(r.s).iv)) => r.printed = PrintInterval(ParseInterval(r.s).iv)
   /\ ~r.ok => r.stdoutLen = 0 /\ r.stderrLen > 0
 
 NameOf(q, n) == q \o ToString(n)
